@@ -209,20 +209,22 @@ theorem no_orphan_block_partial_comm (s : St) (k : Nat) : ((finishComm s k).acts
   apply fold
   simp [St.setAct]
 
-/-! ### the abort: CommImpl::start asserts that both endpoint hosts are on
-Full-strength statement (FALSE on the current code): `∀ es, (run (init hosts route) es).crashed = false` — the kernel
-never aborts whatever the sequence of actor operations and failures. -/
+/-! ### the abort: before fix commit fcd7d0e96a CommImpl::start asserted that both endpoint hosts are on
+(with `startAsserts := true` in Model.lean both witnesses below evaluate to `crashed = true`).  They are kept as
+regressions: on the repaired code the failure is reported instead.  The general statement
+`∀ es, (run (init hosts route) es).crashed = false` is not proved (the model still has crash states for null
+endpoints and for the kernel's other assertions). -/
 
 /-- witness (a): a detached send stays queued in its mailbox after the sender's host failed (nobody cancels it:
 `CommImpl::cancel` skips detached WAITING comms, and it is not among the dying actor's activities); the next receiver
-matches it and `CommImpl::start` aborts on `xbt_assert(from_->is_on())`. -/
-theorem comm_start_assert_counterexample :
-    (run (init [0, 1] (fun _ _ => [0])) [.isend 0 0 true, .hostOff 0, .handleEnded, .irecvWait 1 0]).crashed = true := by
+matches it and `CommImpl::start` used to abort on `xbt_assert(from_->is_on())`. -/
+theorem comm_start_on_failed_sender_regression :
+    (run (init [0, 1] (fun _ _ => [0])) [.isend 0 0 true, .hostOff 0, .handleEnded, .irecvWait 1 0]).crashed = false := by
   decide
 
 /-- witness (b): `Comm::sendto_async(from, to)` while `from` is off -/
-theorem sendto_assert_counterexample :
-    (run (init [2] (fun _ _ => [0])) [.hostOff 0, .sendto 0 0 1]).crashed = true := by
+theorem sendto_on_failed_host_regression :
+    (run (init [2] (fun _ _ => [0])) [.hostOff 0, .sendto 0 0 1]).crashed = false := by
   decide
 
 /-- the same two scenarios without the failure do not abort -/
